@@ -484,7 +484,12 @@ func DistinctScore(labels []string, stores []*StoreInfo, other *StoreInfo) float
 // MergeLabels merges the passed in labels with origins, overriding duplicated
 // ones.
 func (s *StoreInfo) MergeLabels(labels []*metapb.StoreLabel) []*metapb.StoreLabel {
-	storeLabels := s.GetLabels()
+	// work on a copy: the labels of a served store must not change before the merged
+	// result has been validated and persisted.
+	storeLabels := make([]*metapb.StoreLabel, 0, len(s.GetLabels())+len(labels))
+	for _, label := range s.GetLabels() {
+		storeLabels = append(storeLabels, &metapb.StoreLabel{Key: label.Key, Value: label.Value})
+	}
 L:
 	for _, newLabel := range labels {
 		for _, label := range storeLabels {
@@ -493,7 +498,7 @@ L:
 				continue L
 			}
 		}
-		storeLabels = append(storeLabels, newLabel)
+		storeLabels = append(storeLabels, &metapb.StoreLabel{Key: newLabel.Key, Value: newLabel.Value})
 	}
 	res := storeLabels[:0]
 	for _, l := range storeLabels {
